@@ -243,6 +243,7 @@ func (e *Engine) instrWrites(fn *ssa.Function, in ssa.Instruction, set map[strin
 	case *ssa.Range:
 		set[fmt.Sprintf("G|it|%s.%s|*", fn.RelString(e.P.TPkg), x.Name())] = true
 	case *ssa.Next:
+		set["G|iterated"] = true
 		if r, ok := x.Iter.(*ssa.Range); ok {
 			set[fmt.Sprintf("G|it|%s.%s|*", fn.RelString(e.P.TPkg), r.Name())] = true
 		}
@@ -403,6 +404,7 @@ func (e *Engine) modelWrites(f *ssa.Function, call *ssa.CallCommon, set map[stri
 		set["SM|*"] = true
 		set[allocName] = true
 		set["G|removed"] = true
+		set["G|iterated"] = true
 	}
 }
 
